@@ -29,6 +29,11 @@ FALSY_MODULES = ("statemachine/statemachine.py", "statemachine/state.py", "state
 DIAGNOSTIC = {"__repr__", "__str__", "_repr_html_", "_repr_svg_"}
 
 
+def _cg(ctx: Ctx):
+    from .c03 import callgraph
+    return callgraph(ctx)
+
+
 def rule_access(ctx: Ctx):
     rep = ctx.rep
     getter = ctx.p.find_fn("StateMachine.current_state_value")
@@ -39,10 +44,27 @@ def rule_access(ctx: Ctx):
         raise AnalysisError("anchor lost: current_state / current_state_value properties")
     for f in (getter, setter, sgetter, ssetter):
         rep.note_fn(f)
-    for p in ctx.paths(getter, inline=None, exc_edges="none"):
-        v = xshow(p.value, p.events) if p.kind == "return" else ""
-        rep.check(v == "getattr(self.model, self.state_field, None)", "C10.access", getter.loc(),
-                  "the state value is read from the model's state field at every access", getter.key, f"return {v}")
+    # `getattr(m, f, None)`, or the same thing spelled `try: getattr(m, f) / except AttributeError: None`
+    plain, tried, other = [], [], []
+    for p in ctx.paths(getter, inline=None, exc_edges="try"):
+        if p.kind != "return":
+            if p.kind != "raise" or not any(e.kind == "throw" for e in p.events):
+                other.append(f"{p.kind}")
+            continue
+        v = xshow(p.value, p.events)
+        hs = [e for e in p.events if e.kind == "handler"]
+        if v == "getattr(self.model, self.state_field, None)" and not hs:
+            plain.append(p)
+        elif v == "getattr(self.model, self.state_field)" and not hs:
+            tried.append(("value", p))
+        elif v == "None" and hs and all(e.term is not None and show(e.term) == "AttributeError" for e in hs) \
+                and any(e.kind == "call" and xshow(e.term, p.events) == "getattr(self.model, self.state_field)" for e in p.events):
+            tried.append(("default", p))
+        else:
+            other.append(f"return {v}")
+    ok_get = not other and ((plain and not tried) or (not plain and {k_ for k_, _ in tried} == {"value", "default"}))
+    rep.check(bool(ok_get), "C10.access", getter.loc(), "the state value is read from the model's state field at every access (None when never assigned)",
+              getter.key, "; ".join(other) or f"{len(plain)} plain / {len(tried)} try-form paths")
     n_w = 0
     for p in ctx.paths(setter, inline=None, exc_edges="none"):
         evs = p.events
@@ -90,7 +112,9 @@ def rule_access(ctx: Ctx):
                 if "state_field" in show(n.args[1]):
                     n_sites += 1
                     want = getter if n.func.id == "getattr" else setter
-                    rep.check(fn is want, "C10.access", fn.loc(n), f"the model's state field is touched by `{n.func.id}` only inside the "
+                    via_helper = fn is not want and ctx.is_new(fn) and bool(_cg(ctx).callers(fn)) and \
+                        all(c is want for c, _, _ in _cg(ctx).callers(fn))
+                    rep.check(fn is want or via_helper, "C10.access", fn.loc(n), f"the model's state field is touched by `{n.func.id}` only inside the "
                               f"current_state_value {'getter' if n.func.id == 'getattr' else 'setter'}", fn.key, norm_stmt(n))
     rep.floor("C10.access", "accesses of the model's state field", n_sites, 2)
     fi = ctx.fn("State.for_instance")
